@@ -1094,6 +1094,17 @@ impl<const M: usize> Exec<M> {
             if al <= M && sz.checked_add(M - 1).map(|x| x / M * M <= cap_before).unwrap_or(false) {
                 expect_no_malloc = Some(("C18", "fits-but-malloc"));
             }
+        }
+        if let (Op::AGrow { sz, al, .. }, true) = (op, self.bump.is_some()) {
+            // growing needs at most a fresh block of the new size (plus alignment padding): when that fits what is left of the
+            // current chunk, the global allocator must not be asked
+            // (for alignments up to MIN_ALIGN only: an over-aligned request is rounded up to its alignment by the fast path, which
+            // may legitimately decline what an exact fit computation would accept)
+            if *al <= M && sz.checked_add(M - 1).map(|x| x / M * M <= cap_before).unwrap_or(false) {
+                expect_no_malloc = Some(("C18", "fits-but-malloc"));
+            }
+        }
+        if let (Some((sz, al)), true) = (req_layout, self.bump.is_some()) {
             if let Some((lsz, lal)) = self.last_failed_init {
                 if (lsz, lal) == (sz, al) {
                     expect_no_malloc = Some(("C11", "residue-after-failed-init"));
